@@ -226,6 +226,9 @@ class BuiltinMixin:
         seq = self.as_seq(args[0])
         return SSet(self.setof(seq.t), src=seq)
 
+    def b_frozenset(self, fr, f, args, kw, node):
+        return self.b_set(fr, f, args, kw, node)       # immutability plays no role for membership / comparison
+
     def b_range(self, fr, f, args, kw, node):
         if len(args) == 1:
             lo, hi = z3.IntVal(0), self.as_int(args[0])
